@@ -61,6 +61,7 @@ inline void World::step(Proc &p) {
   if (chosen.type == ALT_KILL) { note("pid " + std::to_string(p.vpid) + " (" + p.name + ") KILLED before " + opname(r.op)); kill_proc(p, SIGKILL); st.op = VK_KILL; st.injected = true; scn->after_step(*this, p, st); return; }
   if (chosen.type == ALT_SIGNAL) { note("signal " + std::to_string(chosen.arg) + " reaches pid " + std::to_string(p.vpid) + " (" + p.name + ") before " + opname(r.op)); raise_sig(p, chosen.arg); st.sigraised = chosen.arg; st.injected = true; scn->after_step(*this, p, st); return; }
   if (chosen.type == ALT_EXIT) { note("pid " + std::to_string(p.vpid) + " (" + p.name + ") exits " + std::to_string(chosen.arg) + " instead of " + opname(r.op)); kill_proc(p, 0, chosen.arg); st.op = VK_EXIT; st.ret = chosen.arg; st.injected = true; scn->after_step(*this, p, st); return; }
+  if (chosen.type == ALT_TICK) { note("the clock advances by " + std::to_string(chosen.arg) + " s before " + opname(r.op)); advance_clock(k.clock + chosen.arg); st.injected = true; chosen.type = ALT_NONE; }   // then the call itself runs normally
   if (chosen.type == ALT_MACHINE_CRASH) { note("machine crash before " + opname(r.op) + " of pid " + std::to_string(p.vpid)); machine_crash(); return; }
   std::string out; long aout[6] = {0, 0, 0, 0, 0, 0}; long ret = 0; int err = 0;
   bool exited = false;
@@ -71,6 +72,7 @@ inline void World::step(Proc &p) {
     if (r.op == VK_FORK) ret = -1;
   } else {
     Req saved_req;
+    if (chosen.type == ALT_SHORT && chosen.arg > p.req.a[1]) throw HarnessError{"scenario offered a 'short' count larger than the call asked for"};
     if (chosen.type == ALT_SHORT) { saved_req = p.req; p.req.a[1] = chosen.arg; if (p.req.op == VK_WRITE) p.req.data.resize(chosen.arg); st.injected = true; }
     if (chosen.type == ALT_READDIR_LATE) { auto it = p.dirs.find(r.a[0]); if (it != p.dirs.end()) { DirStream &ds = it->second; Inode *d = k.I(ds.dir); if (d) for (auto &e : d->ent) if (std::find(ds.names.begin(), ds.names.end(), e.first) == ds.names.end()) { ds.names.push_back(e.first); ds.inos.push_back(e.second); } ds.extended = true; } st.injected = true; }
     exited = exec_op(p, st, out, aout, ret, err);
